@@ -63,6 +63,9 @@ class Config:
     max_paths = 20000
     use_cvc5 = True
     keep_smt2 = 3  # how many sample obligations keep their SMT-LIB text
+    qf_branching = False  # opt-in per contract (`qf_branching = True`): decide branch feasibility on the quantifier-free
+    # part of the path condition only.  Sound (a branch is dropped only when refuted); a branch that only the quantified
+    # facts refute is explored, and its obligations are then checked against the full path condition as usual.
 
 
 def cvc5_check(smt2: str, timeout_s: int = 20) -> str:
@@ -140,6 +143,8 @@ class State:
         self.pos = 0
         self.pc: list = []
         self.solver = z3.Solver()
+        self.qf_solver = z3.Solver()  # the quantifier-free part of the path condition
+        self.n_quantified = 0
         self.counter = 0
         self.trace: list = []  # ghost event trace
         self.ghost: dict = {}
@@ -179,6 +184,23 @@ class State:
             return
         self.pc.append(f)
         self.solver.add(f)
+        if not _has_quantifier(f):
+            self.qf_solver.add(f)
+        else:
+            self.n_quantified += 1
+
+    def qf_refutes(self, extra, timeout_ms=500):
+        """Is `extra` inconsistent with the quantifier-free part of the path condition?  (Sound and fast, not
+        complete: used where a `no` merely costs precision, e.g. the empty-range shortcut of `forall`.)"""
+        t0 = time.time()
+        self.qf_solver.set("timeout", timeout_ms)
+        self.qf_solver.push()
+        self.qf_solver.add(extra)
+        r = self.qf_solver.check()
+        self.qf_solver.pop()
+        self.ex.solver_time += time.time() - t0
+        self.ex.queries += 1
+        return r == z3.unsat
 
     def _check(self, extra, timeout_ms):
         t0 = time.time()
@@ -211,6 +233,10 @@ class State:
                     continue
                 if z3.is_true(c):
                     feas.append(i)
+                    continue
+                if self.cfg.qf_branching:
+                    if not self.qf_refutes(c, self.cfg.branch_timeout_ms):
+                        feas.append(i)
                     continue
                 r, _ = self._check(c, self.cfg.branch_timeout_ms)
                 if r != z3.unsat:
@@ -272,7 +298,12 @@ class State:
             if z3.is_true(formula):
                 ob.status = "discharged"
             else:
-                r, model = self._check(z3.Not(formula), self.cfg.oblig_timeout_ms)
+                # first against the quantifier-free part of the path condition alone (fewer assumptions: sound;
+                # quantified facts that the goal does not need otherwise send the solver astray), then in full
+                if self.n_quantified and self.qf_refutes(z3.Not(formula), min(2000, self.cfg.oblig_timeout_ms)):
+                    r, model = z3.unsat, None
+                else:
+                    r, model = self._check(z3.Not(formula), self.cfg.oblig_timeout_ms)
                 if r == z3.unsat:
                     ob.status = "discharged"
                 elif r == z3.sat:
@@ -396,6 +427,21 @@ class State:
     # ---- ghost trace
     def event(self, *ev):
         self.trace.append(ev)
+
+
+def _has_quantifier(f, _seen=None):
+    seen = set() if _seen is None else _seen
+    todo = [f]
+    while todo:
+        e = todo.pop()
+        if z3.is_quantifier(e):
+            return True
+        k = e.get_id()
+        if k in seen:
+            continue
+        seen.add(k)
+        todo.extend(e.children())
+    return False
 
 
 def _short(f, n=300):
